@@ -414,10 +414,93 @@ def shape_list_state(rng, st, names, safe_names):
     return st
 
 
+# ---------------------------------------------------------------------------------------------------------
+# LIST.NEIGHBOR* cases (property C20, instruction part).  Sizes stay small: the instructions allocate and scan
+# `size` cells (resource envelope = C15).  The debug build squares coordinate differences with libm's powf: the
+# oracle entries powf(d, 2.0), |d| < edge, are put into the case up front (from the harness binary's own libm);
+# whatever else the model asks for is answered by the Need protocol of lib/vcheck.py.
+NBR = {"LIST.NEIGHBOR*IDS", "LIST.NEIGHBOR*BVALS", "LIST.NEIGHBOR*IVALS", "LIST.NEIGHBOR*FVALS"}
+NBR_RADII = [fbits(x) for x in (0.0, 0.5, 1.0, 1.2, 1.5, 2.0, 3.0, 1.0, 2.0)] + [0x3FB504F3, 0x3FB504F3,      # sqrt 2
+             0x7fc00000, fbits(-1.0), fbits(-0.5), 0x80000000, 0x7f800000, 0xff800000, fbits(2.2360679), fbits(1e-30)]
+NBR_SIZES_ODD = [-1, -7, -300, -2147483648, 0, 1, 2, 64, 81, 100, 125, 128, 216, 243, 256]
+_POWF_SQ = {}
+
+
+def powf_sq_table(maxd):
+    """oracle entries [5, key, result] of powf(d, 2.0) for d = -maxd..maxd"""
+    import vcheck
+    need = [d for d in range(-maxd, maxd + 1) if d not in _POWF_SQ]
+    if need:
+        keys = [fbits(float(d)) * 2 ** 32 + 0x40000000 for d in need]
+        out = vcheck.sx_parse(vcheck.run_impl(["libm " + vcheck.sx_str([0, [[5, k] for k in keys]])])[0])
+        assert out[0] == 0 and len(out[1]) == len(keys), "libm oracle suite failed"
+        for d, ent in zip(need, out[1]): _POWF_SQ[d] = ent
+    return [_POWF_SQ[d] for d in range(-maxd, maxd + 1)]
+
+
+def iroot_ceil(n, d):
+    e = 1
+    while e ** d < n: e += 1
+    return e
+
+
+def nbr_record(rng, names, depth=1):
+    """a record of typed literals (what bval / ival / fval address), now and then nested or polluted"""
+    def field():
+        k = rng.randrange(14)
+        if k < 4: return Z(rng.choice([rng.randrange(-9, 10), rng.randrange(0, 100), rand_i32(rng)]))
+        if k < 7: return B(rng.random() < 0.5)
+        if k < 10: return F(rng.choice([fbits(rng.randrange(-8, 9) / 2), rng.choice(F32_SORT), rand_f32(rng)]))
+        if k == 10 and depth > 0: return nbr_record(rng, names, depth - 1)
+        if k == 11: return N(rand_name(rng))
+        if k == 12: return rng.choice([IV([rng.randrange(0, 13)]), BV([True]), FV([fbits(1.5)])])
+        return rand_atom(rng, names)
+    return L(*[field() for _ in range(rng.randrange(0, 8))])
+
+
+def shape_nbr_case(rng, name, st, names):
+    """INTEGER (top first): [position] size index dimensions; FLOAT: radius; CODE: records.  Returns (state, libm-table bound)"""
+    vals = name != "LIST.NEIGHBOR*IDS"
+    r = rng.random()
+    size = rng.randrange(0, 41) if r < 0.55 else rng.randrange(0, 14) if r < 0.8 else rng.choice(NBR_SIZES_ODD)
+    r = rng.random()
+    dims = rng.randrange(0, 5) if r < 0.7 else rng.choice([-1, -3, -2147483648, 5, 6, 7, 12, size - 1, size, size + 1, 63, 64, 65, 70, 2147483647])
+    dims = max(dims, -2147483648)
+    r = rng.random()
+    index = rng.randrange(0, max(size, 1)) if r < 0.6 else rng.randrange(-3, max(size, 0) + 4) if r < 0.9 else rng.choice(I32)
+    r = rng.random()
+    position = rng.randrange(0, 4) if r < 0.6 else rng.randrange(-3, 9) if r < 0.9 else rng.choice(I32)
+    radius = rng.choice(NBR_RADII) if rng.random() < 0.9 else rng.choice([rand_f32(rng), fbits(rng.uniform(0, 5))])
+    st = tame_ints(st)                                          # whatever slides into the size slot stays small
+    keep = lambda l: l[:rng.randrange(0, 3)]
+    st["int"] = ([position] if vals else []) + [size, index, dims] + keep(st["int"])
+    st["float"] = [radius] + keep(st["float"])
+    ncode = rng.choice([rng.randrange(0, max(size, 0) + 3), max(size, 0), rng.randrange(0, 6)])
+    st["code"] = [nbr_record(rng, names) if rng.random() < 0.9 else rand_item(rng, names) for _ in range(min(ncode, 45))]
+    r = rng.random()
+    if r < 0.06: st["int"] = st["int"][:rng.randrange(0, 4 if vals else 3)]       # too few INTEGERs: untouched
+    elif r < 0.12: st["float"] = []                                              # no FLOAT: the INTEGERs are lost
+    elif r < 0.15 and vals: st["int"] = st["int"][1:]                             # one operand short: everything shifts
+    ints = st["int"]
+    bound = -1
+    if len(ints) >= (4 if vals else 3) and st["float"]:
+        t = ints[1:4] if vals else ints[0:3]
+        if t[0] > 300:                                                            # never an operand-sized allocation
+            t[0] = ints[1 if vals else 0] = t[0] % 300
+        sz = max(t[0], 0); dm = max(min(sz, t[2]), 0)
+        if sz >= 1 and dm >= 1: bound = iroot_ceil(sz, min(dm, 64)) - 1
+    return st, bound
+
+
 def step_case(rng, name, names, safe_names, profile=None):
     if name.startswith("GRAPH."):
         return graph_case(rng, name, names, safe_names, profile)
     st = rand_state(rng, names, safe_names)
+    if name in NBR:
+        st, bound = shape_nbr_case(rng, name, st, safe_names)
+        st["exec"] = [I(name)] + st["exec"]
+        prof = rng.randrange(2) if profile is None else profile
+        return case_run(prof, state(**st), 0, 1, libm=powf_sq_table(bound) if prof == 0 and bound >= 0 else ())
     if name.startswith("LIST.") and name not in ALLOCATING and rng.random() < 0.85:
         st = shape_list_state(rng, st, names, safe_names)
     if name.split(".")[0] in VEC_KEY and "." in name:
